@@ -492,6 +492,47 @@ DEFOP(patch_gen) {
         struct FT { MVal *m; ~FT() { mv_free(m); } } ft{tcopy};
         if (!mv_equal(tcopy, got, eo, &ew)) { w.mismatch("gen-apply-lib", "generated patch applied by the library does not yield 'to': " + ew + " [patch " + ptxt + " from " + ftxt + " to " + ttxt + "]"); return; }
     }
+    // the patch applied to 'from' ITSELF and then once more to a fresh copy: the generated patch is a document of its own,
+    // what the first application releases or rewrites inside 'from' must not matter to it
+    if (!pm->kids.empty() && ((uint64_t)st.A(0) / 1009) % 3 == 0) {
+        cJSON *copy2 = build_from_model(from_before);
+        if (!copy2) { w.noop(st, "copy of from could not be built"); return; }
+        struct D3 { cJSON *c; ~D3() { cJSON_Delete(c); } } d3{copy2};
+        MVal *tcopy = mv_clone_value(to_before); tcopy->keystate = K_NONE; tcopy->key.clear();
+        struct FT { MVal *m; ~FT() { mv_free(m); } } ft{tcopy};
+        cJSON *fc = from->c;
+        w.touch(fs);
+        w.model_delete(from);
+        w.slots[fs] = nullptr;
+        int status = cJSONUtils_ApplyPatchesCaseSensitive(fc, patches);
+        if (status != 0) { w.mismatch("gen-apply-lib", "the library fails to apply its own generated patch to 'from' itself (status " + I(status) + "): " + ptxt + " [from " + ftxt + " to " + ttxt + "]"); return; }
+        budget = 4000000;
+        if (!struct_wellformed(fc, true, budget, 0, why)) { w.mismatch("gen-apply-lib", "'from' patched in place is not a well-formed tree: " + why + " [patch " + ptxt + " from " + ftxt + "]"); return; }
+        budget = 4000000;
+        MVal *got = read_struct(fc, budget, 0, why, true);
+        if (!got) { w.mismatch("gen-apply-lib", "'from' patched in place is unreadable: " + why); return; }
+        w.slots[fs] = got;
+        std::string ew;
+        int ks = got->keystate; std::string kk = got->key; got->keystate = K_NONE; got->key.clear();
+        bool eq = mv_equal(tcopy, got, eo, &ew);
+        got->keystate = ks; got->key = kk;
+        if (!eq) { w.mismatch("gen-apply-lib", "generated patch applied to 'from' itself does not yield 'to': " + ew + " [patch " + ptxt + " from " + ftxt + " to " + ttxt + "]"); return; }
+        status = cJSONUtils_ApplyPatchesCaseSensitive(copy2, patches);
+        if (status != 0) { w.mismatch("gen-apply-lib", "second application of the generated patch (to a fresh copy of 'from', after 'from' itself was patched) fails with status " + I(status) + ": " + ptxt + " [from " + ftxt + " to " + ttxt + "]"); return; }
+        budget = 4000000;
+        MVal *got2 = read_struct(copy2, budget, 0, why);
+        if (!got2) { w.mismatch("gen-apply-lib", "patched second copy unreadable: " + why); return; }
+        struct FG2 { MVal *m; ~FG2() { mv_free(m); } } fg2{got2};
+        got2->keystate = K_NONE; got2->key.clear();
+        if (!mv_equal(tcopy, got2, eo, &ew)) { w.mismatch("gen-apply-lib", "second application of the generated patch does not yield 'to': " + ew + " [patch " + ptxt + " from " + ftxt + " to " + ttxt + "]"); return; }
+        budget = 4000000;
+        MVal *pm2 = read_struct(patches, budget, 0, why);
+        if (!pm2) { w.mismatch("gen-result", "generated patch unreadable after it was applied: " + why); return; }
+        struct FP2 { MVal *m; ~FP2() { mv_free(m); } } fp2{pm2};
+        EqOpts ex;
+        if (!mv_equal(pm, pm2, ex, &ew)) { w.mismatch("gen-result", "the generated patch changed while it was applied: " + ew + " [patch " + ptxt + "]"); return; }
+        w.stats.probes["generated_patch_applied_to_from_itself_then_again"]++;
+    }
     if (!pm->kids.empty()) { w.mark_nontrivial(); w.stats.state_hashes.push_back(mix64(hash_str(ptxt), hash_str(ftxt))); }
     w.log.add("patch_gen s" + I(fs) + " -> s" + I(ts) + " ops " + I((int64_t)pm->kids.size()));
 }
@@ -587,6 +628,44 @@ DEFOP(merge_gen) {
         struct FG { MVal *m; ~FG() { mv_free(m); } } fg{got};
         got->keystate = K_NONE; got->key.clear();
         if (!mv_equal(to_before, got, eo, &ew)) { w.mismatch("mgen-apply-lib", "generated merge patch applied by the library does not yield 'to': " + ew + " [patch " + ptxt + " from " + ftxt + " to " + ttxt + "]"); return; }
+    }
+    // the patch applied to 'from' ITSELF (which is consumed) and then once more to a fresh copy: the generated patch is a
+    // document of its own, what the first application releases inside 'from' must not matter to it
+    if (patch && ((uint64_t)st.A(0) / 1009) % 3 == 0) {
+        cJSON *copy2 = build_from_model(from_before);
+        if (!copy2) { w.noop(st, "copy of from could not be built"); return; }
+        cJSON *fc = from->c;
+        w.touch(fs);
+        w.model_delete(from);
+        w.slots[fs] = nullptr;
+        cJSON *res = cJSONUtils_MergePatchCaseSensitive(fc, patch);
+        if (!res) { cJSON_Delete(copy2); w.mismatch("mgen-apply-lib", "the library fails to apply its own merge patch to 'from' itself " + ptxt); return; }
+        size_t budget = 4000000;
+        if (!struct_wellformed(res, true, budget, 0, why)) { cJSON_Delete(copy2); w.mismatch("mgen-apply-lib", "'from' merged in place is not a well-formed tree: " + why + " [patch " + ptxt + " from " + ftxt + "]"); return; }
+        budget = 4000000;
+        MVal *got = read_struct(res, budget, 0, why, true);
+        if (!got) { cJSON_Delete(copy2); w.mismatch("mgen-apply-lib", "'from' merged in place is unreadable: " + why); return; }
+        w.slots[fs] = got;
+        int ks = got->keystate; std::string kk = got->key; got->keystate = K_NONE; got->key.clear();
+        bool eq = mv_equal(to_before, got, eo, &ew);
+        got->keystate = ks; got->key = kk;
+        if (!eq) { cJSON_Delete(copy2); w.mismatch("mgen-apply-lib", "generated merge patch applied to 'from' itself does not yield 'to': " + ew + " [patch " + ptxt + " from " + ftxt + " to " + ttxt + "]"); return; }
+        cJSON *res2 = cJSONUtils_MergePatchCaseSensitive(copy2, patch);
+        if (!res2) { w.mismatch("mgen-apply-lib", "second application of the generated merge patch returned NULL " + ptxt); return; }
+        struct D3 { cJSON *c; ~D3() { cJSON_Delete(c); } } d3{res2};
+        budget = 4000000;
+        MVal *got2 = read_struct(res2, budget, 0, why);
+        if (!got2) { w.mismatch("mgen-apply-lib", "second merged copy unreadable: " + why); return; }
+        struct FG2 { MVal *m; ~FG2() { mv_free(m); } } fg2{got2};
+        got2->keystate = K_NONE; got2->key.clear();
+        if (!mv_equal(to_before, got2, eo, &ew)) { w.mismatch("mgen-apply-lib", "second application of the generated merge patch (to a fresh copy of 'from', after 'from' itself was merged) does not yield 'to': " + ew + " [patch " + ptxt + " from " + ftxt + " to " + ttxt + "]"); return; }
+        budget = 4000000;
+        MVal *pm2 = read_struct(patch, budget, 0, why);
+        if (!pm2) { w.mismatch("mgen-result", "generated merge patch unreadable after it was applied: " + why); return; }
+        struct FP2 { MVal *m; ~FP2() { mv_free(m); } } fp2{pm2};
+        EqOpts ex;
+        if (!mv_equal(pm, pm2, ex, &ew)) { w.mismatch("mgen-result", "the generated merge patch changed while it was applied: " + ew + " [patch " + ptxt + "]"); return; }
+        w.stats.probes["generated_merge_patch_applied_to_from_itself_then_again"]++;
     }
     if (patch) { w.mark_nontrivial(); w.stats.state_hashes.push_back(mix64(hash_str(ftxt), hash_str(ttxt))); }
     w.log.add("merge_gen -> " + ptxt);
@@ -766,6 +845,25 @@ DEFOP(dupcheck) {
     if (m->is_container() && m->kids.size() >= 2) w.mark_nontrivial();
     w.log.add("dupcheck -> s" + I(slot) + " " + mv_dump(m, 60));
 }
+// "the source is never modified": every field of every node of a chain, before and after the call
+static std::vector<cJSON> snapshot_chain(const cJSON *root, size_t max_nodes) {
+    std::vector<cJSON> v;
+    for (const cJSON *c = root; c && v.size() < max_nodes; c = c->child) v.push_back(*c);
+    return v;
+}
+static bool same_fields(const cJSON &a, const cJSON &b) {
+    return a.next == b.next && a.prev == b.prev && a.child == b.child && a.type == b.type && a.valuestring == b.valuestring && a.valueint == b.valueint &&
+           memcmp(&a.valuedouble, &b.valuedouble, sizeof(double)) == 0 && a.string == b.string;
+}
+static bool chain_unchanged(const cJSON *root, const std::vector<cJSON> &before, std::string &why) {
+    size_t i = 0;
+    for (const cJSON *c = root; c && i < before.size(); c = before[i].child, i++)
+        if (!same_fields(*c, before[i])) {
+            why = "node at level " + std::to_string(i) + " changed (type " + std::to_string(before[i].type) + " -> " + std::to_string(c->type) + ")";
+            return false;
+        }
+    return true;
+}
 DEFOP(dup_deep) {
     // chains around CJSON_CIRCULAR_LIMIT built through the API (stage-setting), then the judged Duplicate
     static const int depths[] = {100, 5000, 9999, 10000, 10001, 10002, 12000, 30000};
@@ -781,6 +879,7 @@ DEFOP(dup_deep) {
         cur = n;
     }
     size_t live_before = asim::live_blocks();
+    std::vector<cJSON> before = snapshot_chain(root, (size_t)depth + 1);
     cJSON *r = cJSON_Duplicate(root, 1);
     // depth counts containers; the innermost container has no child, so `depth` containers mean nesting depth-1 below the root
     bool must_refuse = depth - 1 > CJSON_CIRCULAR_LIMIT, must_accept = depth - 1 <= CJSON_CIRCULAR_LIMIT - 1;
@@ -795,6 +894,7 @@ DEFOP(dup_deep) {
     }
     // source unmodified: still the same chain
     { int got = 0; for (const cJSON *c = root; c; c = c->child) { got++; if (got > depth + 1) break; } if (got != depth) { w.mismatch("dup-deep", "source chain changed" + ctx); return; } }
+    { std::string cw; if (!chain_unchanged(root, before, cw)) { w.mismatch("dup-deep", "the source was modified by the duplicate: " + cw + ctx); return; } }
     cJSON_Delete(root);
     if (must_refuse && r) { w.mismatch("dup-deep", "structure nested deeper than CJSON_CIRCULAR_LIMIT was duplicated" + ctx); return; }
     if (must_accept && !r) { w.mismatch("dup-deep", "structure within CJSON_CIRCULAR_LIMIT was refused" + ctx); return; }
@@ -823,9 +923,11 @@ DEFOP(dup_cyclic) {
     }
     if (!added) { for (cJSON *c : chain) { c->child = nullptr; c->next = c->prev = nullptr; cJSON_Delete(c); } w.noop(st, "cycle not built"); return; }
     size_t live_before = asim::live_blocks();
+    std::vector<cJSON> before = snapshot_chain(root, (size_t)len);
     cJSON *r = cJSON_Duplicate(root, 1);
     size_t live_after = asim::live_blocks();
     bool intact = tail->child == root && root->next == nullptr && root->prev == root;
+    { std::string cw; if (!chain_unchanged(root, before, cw)) intact = false; }
     for (int i = 0; i + 1 < len; i++) if (chain[(size_t)i]->child != chain[(size_t)i + 1]) intact = false;
     // break the cycle before releasing anything
     tail->child = nullptr;
@@ -880,8 +982,14 @@ DEFOP(dup_refcycle) {
     cJSON_bool added = obj ? cJSON_AddItemReferenceToObject(list, "self", list) : cJSON_AddItemReferenceToArray(list, list);
     if (!added) { cJSON_Delete(list); w.noop(st, "reference not added"); return; }
     size_t live_before = asim::live_blocks();
+    std::vector<cJSON> before;
+    before.push_back(*list);
+    for (const cJSON *c = list->child; c; c = c->next) before.push_back(*c);
     cJSON *r = cJSON_Duplicate(list, 1);
     size_t live_after = asim::live_blocks();
+    bool src_same = same_fields(*list, before[0]);
+    { size_t i = 1; for (const cJSON *c = list->child; c && i < before.size(); c = c->next, i++) if (!same_fields(*c, before[i])) src_same = false; }
+    if (!r && !src_same) { cJSON_Delete(list); w.mismatch("dup-cyclic", "the source structure was modified by the refused duplicate (reference cycle)"); return; }
     if (r) {
         cJSON_Delete(list);  // the reference node does not own the children it points at
         w.mismatch("dup-cyclic", "a structure that is cyclic through a reference node was duplicated instead of refused");
